@@ -319,6 +319,25 @@ def driver(pid, args=(), input=None, timeout=3600):
     return run([os.path.join(LEANBIN, "drv_" + pid.lower())] + list(args), input=input, timeout=timeout)
 
 
+def run_isolated(binary, items, timeout=3600):
+    """items: list of (id, input_line). Runs `binary` over them; when the process dies (abort / segfault / stack overflow)
+    the death is attributed to the first item without an answer and the rest continues in a fresh process.
+    Returns dict id -> list of output fields after the id (or ["harness-died …"])."""
+    res, todo = {}, list(items)
+    while todo:
+        p = run([binary], input="".join(l if l.endswith("\n") else l + "\n" for _, l in todo), timeout=timeout)
+        for l in p.stdout.splitlines():
+            f = l.split("\t")
+            if len(f) >= 2 and f[0] not in res:
+                res[f[0]] = f[1:]
+        missing = [(i, l) for i, l in todo if i not in res]
+        if not missing:
+            break
+        res[missing[0][0]] = ["harness-died rc=%s %s" % (p.returncode, p.stderr[-200:].replace("\n", " ").replace("\t", " "))]
+        todo = missing[1:]
+    return res
+
+
 def parallel(jobs, fn, nproc=None):
     """run fn(job) in a thread pool (jobs spawn subprocesses)"""
     from concurrent.futures import ThreadPoolExecutor
